@@ -29,6 +29,7 @@ pub const L0: usize = 12; // initial stream length
 static mut MODEL_ON: bool = false; // the overlay's prologues divert the storage functions while set
 static mut ST: [u8; CAP] = [0; CAP]; // storage model: bytes
 static mut STLEN: usize = 0; // storage model: length
+static mut ST_MUTS: u32 = 0; // calls of the storage model's write / resize so far (C10: a refused seek must cause none)
 static mut FAIL_BUDGET: u32 = 0; // faults the storage model may still inject
 static mut FAILED: u32 = 0; // faults injected so far
 static mut FAIL_READS: bool = false;
@@ -96,6 +97,7 @@ pub fn model_read<F: Read + Seek>(_m: &mut MiniAllocator<F>, _id: u32, off: u64,
 }
 
 pub fn model_write<F: Read + Write + Seek>(m: &mut MiniAllocator<F>, id: u32, off: u64, buf: &[u8]) -> io::Result<()> {
+    unsafe { ST_MUTS += 1; }
     unsafe {
         if fault(FAIL_WRITES) {
             return Err(io::Error::from(ErrorKind::Other));
@@ -116,6 +118,7 @@ pub fn model_write<F: Read + Write + Seek>(m: &mut MiniAllocator<F>, id: u32, of
 }
 
 pub fn model_resize<F: Read + Write + Seek>(m: &mut MiniAllocator<F>, id: u32, new_len: u64) -> io::Result<()> {
+    unsafe { ST_MUTS += 1; }
     unsafe {
         if fault(FAIL_WRITES) {
             return Err(io::Error::from(ErrorKind::Other));
@@ -375,12 +378,14 @@ fn do_seek(s: &mut Stream<TF>, m: &mut Model, arg: SeekFrom) {
         SeekFrom::Current(x) => m.pos as i64 + x,
         SeekFrom::End(x) => m.len as i64 + x,
     };
+    let muts0 = unsafe { ST_MUTS };
     let (r, k) = split(s.seek(arg));
     if target >= 0 && target <= m.len as i64 {
         assert!(r == Some(target as u64), "C06: seek inside [0, len] must succeed and return the new position");
         m.pos = target as usize;
     } else {
         assert!(r.is_none() && k == Some(ErrorKind::InvalidInput), "C06/C10: seek outside [0, len] must fail with InvalidInput");
+        assert!(unsafe { ST_MUTS } == muts0, "C10: a refused seek wrote to the stream's storage (buffered data written back before the target was validated): the underlying bytes changed");
     }
 }
 
